@@ -231,40 +231,43 @@ func c32Run(c c32Case) *eng.Fail {
 		pl = append(pl, a)
 	}
 	sort.Slice(pl, func(i, j int) bool { return pl[i] < pl[j] })
+	nrows := len(rows)
 	for _, a := range pl {
-		// reset cursor to row 0 first
-		for _, cmd := range m.Commands() {
-			if cmd.Keys[0] == "goto" {
-				cmd.Action(nil, 0)
+		for start := 0; start < nrows; start++ {
+			// the command is issued from EVERY cursor row (data and ellipsis rows)
+			for _, cmd := range m.Commands() {
+				if cmd.Keys[0] == "goto" {
+					cmd.Action(nil, start)
+				}
 			}
-		}
-		arg, err := addrCmd.Args[0](fmt.Sprintf("%#x", a))
-		if err != nil {
-			return &eng.Fail{Sig: "memview address parse", What: fmt.Sprintf("address %#x rejected: %v", a, err), Case: c}
-		}
-		var aerr error
-		p, stack := eng.Catch(func() { aerr = addrCmd.Action(nil, arg) })
-		if p != nil {
-			return &eng.Fail{Sig: "memview address panic " + eng.PanicSite(stack), What: fmt.Sprintf("address %#x panics: %v", a, p), Case: c}
-		}
-		cur, _ := memview.VerifCursor(m)
-		_, stored := mdl[a]
-		inRow := wins[a&^15]
-		switch {
-		case stored:
-			if aerr != nil || cur != rowOfWindow[a&^15] {
-				return &eng.Fail{Sig: "memview address wrong-row", What: fmt.Sprintf("address %#x (stored) selects row %d (err %v), its row is %d", a, cur, aerr, rowOfWindow[a&^15]), Case: c}
+			arg, err := addrCmd.Args[0](fmt.Sprintf("%#x", a))
+			if err != nil {
+				return &eng.Fail{Sig: "memview address parse", What: fmt.Sprintf("address %#x rejected: %v", a, err), Case: c}
 			}
-		case !inRow:
-			if aerr == nil {
-				return &eng.Fail{Sig: "memview address accepts-unmapped", What: fmt.Sprintf("address %#x lies in no row but was accepted (row %d)", a, cur), Case: c}
+			var aerr error
+			p, stack := eng.Catch(func() { aerr = addrCmd.Action(nil, arg) })
+			if p != nil {
+				return &eng.Fail{Sig: "memview address panic " + eng.PanicSite(stack), What: fmt.Sprintf("address %#x panics: %v", a, p), Case: c}
 			}
-			if cur != 0 {
-				return &eng.Fail{Sig: "memview address failing-moves-cursor", What: fmt.Sprintf("address %#x failed but moved the cursor to %d", a, cur), Case: c}
-			}
-		default: // absent byte inside a row: either is fine, but a success must select that row
-			if aerr == nil && cur != rowOfWindow[a&^15] {
-				return &eng.Fail{Sig: "memview address wrong-row", What: fmt.Sprintf("address %#x selects row %d, its row is %d", a, cur, rowOfWindow[a&^15]), Case: c}
+			cur, _ := memview.VerifCursor(m)
+			_, stored := mdl[a]
+			inRow := wins[a&^15]
+			switch {
+			case stored:
+				if aerr != nil || cur != rowOfWindow[a&^15] {
+					return &eng.Fail{Sig: "memview address wrong-row", What: fmt.Sprintf("address %#x (stored), issued with the cursor on row %d, selects row %d (err %v), its row is %d", a, start, cur, aerr, rowOfWindow[a&^15]), Case: c}
+				}
+			case !inRow:
+				if aerr == nil {
+					return &eng.Fail{Sig: "memview address accepts-unmapped", What: fmt.Sprintf("address %#x lies in no row but was accepted (row %d)", a, cur), Case: c}
+				}
+				if cur != start {
+					return &eng.Fail{Sig: "memview address failing-moves-cursor", What: fmt.Sprintf("address %#x failed but moved the cursor from %d to %d", a, start, cur), Case: c}
+				}
+			default: // absent byte inside a row: either is fine, but a success must select that row
+				if aerr == nil && cur != rowOfWindow[a&^15] {
+					return &eng.Fail{Sig: "memview address wrong-row", What: fmt.Sprintf("address %#x selects row %d, its row is %d", a, cur, rowOfWindow[a&^15]), Case: c}
+				}
 			}
 		}
 	}
@@ -276,7 +279,7 @@ func wW(w int) expr.Width { return expr.Width(w) }
 func init() {
 	checks["C32"] = eng.Check{
 		Procs:       8,
-		Rule:        "memories (Sparse; Overlay(Bytes, Sparse) with 3 base layouts) storing EVERY union of <=2 runs with endpoints from {0,1,15,16,17,31,32,33,47,48} plus a far run, written with distinct bytes as 1..4-byte stores and then partially overwritten (3 overwrite patterns), also shifted to 0xfff0 and to the top of the address space; the real memory view rendered with 200 granted lines and parsed: one row per aligned 16-byte window touching stored memory in address order, each stored byte's current value, '..' for absent bytes, exactly one ellipsis between non-consecutive rows and none between consecutive ones; the real address command for every stored address +-1 and window edge: selects the stored address's row, fails (cursor unchanged) outside every row. Non-trivial = layout with stored bytes.",
+		Rule:        "memories (Sparse; Overlay(Bytes, Sparse) with 3 base layouts) storing EVERY union of <=2 runs with endpoints from {0,1,15,16,17,31,32,33,47,48} plus a far run, written with distinct bytes as 1..4-byte stores and then partially overwritten (3 overwrite patterns), also shifted to 0xfff0 and to the top of the address space; the real memory view rendered with 200 granted lines and parsed: one row per aligned 16-byte window touching stored memory in address order, each stored byte's current value, '..' for absent bytes, exactly one ellipsis between non-consecutive rows and none between consecutive ones; the real address command for every stored address +-1 and window edge, issued from EVERY cursor row (data and ellipsis rows): selects the stored address's row, fails (cursor unchanged) outside every row. Non-trivial = layout with stored bytes.",
 		Assumptions: []string{"leading/trailing ellipsis rows and the outcome for an absent byte inside a shown row are not constrained"},
 		Run: func(r *eng.Run) {
 			ends := []int{0, 1, 15, 16, 17, 31, 32, 33, 47, 48}
